@@ -909,6 +909,21 @@ func TestVerifC05(t *testing.T) {
 			rep.Inconc("no CLI token obtained")
 			return
 		}
+		// a real token's validity window is the configured one (webauth_token_for_cli_lifetime: 1h): otherwise "expired
+		// tokens never work" is empty for real tokens
+		for _, tok := range []string{ta, tb} {
+			if _, pl, _, ok := verifSplitJWS(tok); ok {
+				var cl verifClaims
+				if json.Unmarshal(pl, &cl) == nil {
+					life := verifClaimInt(cl, "exp") - verifClaimInt(cl, "iat")
+					rep.Eval(fmt.Sprintf("cli-token|lifetime<=1h=%v", life <= 3600))
+					rep.Count("cli_token_lifetimes_checked", 1)
+					if life > 3600+5 || verifClaimInt(cl, "exp") == 0 {
+						rep.Violate("C05/cli-token-outlives-configured-lifetime", fmt.Sprintf("a CLI token minted with webauth_token_for_cli_lifetime=1h is valid for %d s", life), map[string]interface{}{"iat": verifClaimInt(cl, "iat"), "exp": verifClaimInt(cl, "exp")})
+					}
+				}
+			}
+		}
 		w.sendAuthDoc(sb, ta, true, "other-users-token")
 		w.sendAuthDoc(sa, ta, true, "own")
 		// expired copy of a's token re-signed with the deployment key (an hour cannot be waited out)
@@ -1051,6 +1066,7 @@ func TestVerifC05(t *testing.T) {
 	rep.Floor("scenarios_completed", 12+nPairs)
 	rep.Floor("slow_read_scenarios", 1)
 	rep.Floor("mixed_credential_requests", 2)
+	rep.Floor("cli_token_lifetimes_checked", 2)
 	rep.Floor("not_approved_pushes_polled", 8)
 	rep.Floor("two_cookie_requests", 6)
 	rep.Floor("storage_fault_scenarios", 1)
